@@ -88,11 +88,16 @@ def gen_versions(rng):
     versym = b''.join(struct.pack(E + 'H', v) for v in vers)
     symsz = 24 if is64 else 16
     dsz = 16 if is64 else 8
+    dyn_at = rng.choice([None, None, 1, 3])
+    # addresses in the upper half of the address space (kernel-style images, MIPS kseg0): values are unsigned
+    top = 1 << (cls - 1)
+    high_tags = [(12, top | 0x1000), (13, (1 << cls) - 16), (3, top)][:rng.choice([0, 0, 1, 3])]
 
     def make(addr):
         """addr: {section name: address} from the first pass (or {} for the first pass)."""
         tags = [(5, addr.get('.dynstr', 0)), (6, addr.get('.dynsym', 0)), (10, len(tab)), (11, symsz), (14, so[soname]),
                 (0x6ffffff0, addr.get('.gnu.version', 0))]
+        tags += high_tags
         for f in range(nneed):
             tags.insert(0, (1, so[LIBS[f]]))
         if ndef:
@@ -111,7 +116,9 @@ def gen_versions(rng):
         if nneed:
             secs.append(elfgen.Sec('.gnu.version_r', 0x6ffffffe, flags=2, data=bytes(vn), link='.dynstr', info=nneed, align=8,
                                    addr=addr.get('.gnu.version_r', 0)))
-        secs.append(elfgen.Sec('.dynamic', 6, flags=3, data=dyn, link='.dynstr', entsize=dsz, align=8, addr=addr.get('.dynamic', 0)))
+        dsec = elfgen.Sec('.dynamic', 6, flags=3, data=dyn, link='.dynstr', entsize=dsz, align=8, addr=addr.get('.dynamic', 0))
+        # the order of the section headers is the linker's business: .dynamic need not come after the version sections
+        secs.insert(dyn_at if dyn_at is not None else len(secs), dsec)
         segs = [elfgen.Seg(type=1, flags=7, offset=0, vaddr=0, filesz=0, align=0x1000), elfgen.Seg(type=2, flags=6, sec='.dynamic', align=8)]
         return secs, segs
     secs, segs = make({})
@@ -163,8 +170,9 @@ def gen_notes_file(rng):
         secs.append(elfgen.Sec('.note.%s%d' % (parts[0][0], i), 7, flags=2, data=data, align=4, addr=addr))
         addr += 0x100
         shape.append([p[0] for p in parts])
-    if cls == 64 and machine in (62, 183) and rng.random() < 0.6:
-        W = 'Q'
+    if machine in (62, 183, 3) and rng.random() < 0.6:
+        W = 'Q' if cls == 64 else 'I'
+        pal = 8 if cls == 64 else 4
         props = b''
         kinds = []
         for j in range(rng.choice([1, 2, 3])):
@@ -175,12 +183,12 @@ def gen_notes_file(rng):
             elif pk == 'nocopy':
                 pd, pt = b'', 2
             else:
-                pt = 0xc0000002 if machine == 62 else 0xc0000000
+                pt = 0xc0000002 if machine in (62, 3) else 0xc0000000
                 pd = struct.pack(E + 'I', rng.choice([1, 2, 3]))
             rec = struct.pack(E + 'II', pt, len(pd)) + pd
-            props += rec + b'\0' * (-len(rec) % 8)
+            props += rec + b'\0' * (-len(rec) % pal)
             kinds.append(pk)
-        secs.append(elfgen.Sec('.note.gnu.property', 7, flags=2, data=note('GNU', 5, props, 8), align=8, addr=addr))
+        secs.append(elfgen.Sec('.note.gnu.property', 7, flags=2, data=note('GNU', 5, props, pal), align=pal, addr=addr))
         shape.append(['property:' + '+'.join(kinds)])
     img, info = elfgen.build(cls=cls, le=le, machine=machine, etype=2, sections=secs)
     return img, dict(cls=cls, le=le, machine=machine, sections=shape)
@@ -236,15 +244,18 @@ def gen_symtab_file(rng):
 RELOC_MACH = {  # machine: (class, little-endian, RELA?, enum name)
     3: (32, True, False, 'ENUM_RELOC_TYPE_i386'), 62: (64, True, True, 'ENUM_RELOC_TYPE_x64'), 40: (32, True, False, 'ENUM_RELOC_TYPE_ARM'),
     183: (64, True, True, 'ENUM_RELOC_TYPE_AARCH64'), 8: (32, False, False, 'ENUM_RELOC_TYPE_MIPS'), 21: (64, True, True, 'ENUM_RELOC_TYPE_PPC64'),
-    22: (64, False, True, 'ENUM_RELOC_TYPE_S390X'), 20: (32, False, True, 'ENUM_RELOC_TYPE_PPC')}
+    22: (64, False, True, 'ENUM_RELOC_TYPE_S390X'), 20: (32, False, True, 'ENUM_RELOC_TYPE_PPC'),
+    'mips64': (64, False, True, 'ENUM_RELOC_TYPE_MIPS'), 'mips64el': (64, True, True, 'ENUM_RELOC_TYPE_MIPS')}
 
 
 def gen_reloc_file(rng, type_tables):
     """-> (image, description): a relocatable object with one or two relocation sections whose entries use
     types from `type_tables[machine]` (a list of numbers), named and section symbols, no-symbol entries,
     negative and large addends."""
-    machine = rng.choice(sorted(RELOC_MACH))
-    cls, le, rela, _ = RELOC_MACH[machine]
+    mkey = rng.choice(sorted(RELOC_MACH, key=str))
+    cls, le, rela, _ = RELOC_MACH[mkey]
+    machine = 8 if isinstance(mkey, str) else mkey
+    mips64 = isinstance(mkey, str)
     E = '<' if le else '>'
     is64 = cls == 64
     names = ['', 'callee', 'table', 'a_rather_long_symbol_name_that_needs_truncating', 'v']
@@ -257,7 +268,7 @@ def gen_reloc_file(rng, type_tables):
         syms.append(elfgen.sym_pack(E, is64, offs[n.encode()], rng.choice([0, 0x10, 0x1234]), 4, 0x12 if n != 'table' else 0x11,
                                     0, rng.choice([0, 1, 2])))
     nsym = len(syms)
-    types = type_tables[machine]
+    types = type_tables[mkey]
 
     def recs(n):
         out = b''
@@ -267,7 +278,11 @@ def gen_reloc_file(rng, type_tables):
             s = rng.choice([0] + list(range(1, nsym)))
             off = rng.choice([0, 4, 8, 0x1c, 0x100])
             add = rng.choice([0, 4, -4, -128, 0x7fffffff, -2 ** 31])
-            if is64:
+            if mips64:
+                # r_sym (32 bits), special symbol, third, second and first type (8 bits each)
+                t2, t3 = rng.choice([(0, 0), (0, 0), (24, 5), (24, 0)])
+                out += struct.pack(E + 'QIBBBB', off, s, rng.choice([0, 0, 1, 2]), t3, t2, t & 0xff) + struct.pack(E + 'q', add)
+            elif is64:
                 out += struct.pack(E + 'QQ', off, (s << 32) | t) + (struct.pack(E + 'q', add) if rela else b'')
             else:
                 out += struct.pack(E + 'II', off, (s << 8) | (t & 0xff)) + (struct.pack(E + 'i', add) if rela else b'')
@@ -314,18 +329,20 @@ def gen_layout_file(rng):
     plan.append(('.text', 1, 6, 0, 16, 'rx', blob(rng.choice([16, 64, 300]))))
     if rng.random() < 0.5:
         plan.append(('.fini', 1, 6, 0, 4, 'rx', blob(8)))
-    tls = rng.random() < 0.5
+    empty_rw = rng.random() < 0.2          # a data segment without file content: an empty .data in front of .bss
+    tls = rng.random() < 0.5 and not empty_rw
     if tls:
         plan.append(('.tdata', 1, 0x403, 0, 8, 'rw', blob(rng.choice([4, 8, 24]))))
         plan.append(('.tbss', 8, 0x403, rng.choice([4, 16, 64]), 8, 'rw', b''))
-    if rng.random() < 0.6:
+    if rng.random() < 0.6 and not empty_rw:
         plan.append(('.init_array', 14, 3, 0, 8, 'rw', blob(8 if not is64 else 16)))
-    plan.append(('.data', 1, 3, 0, rng.choice([4, 8, 32]), 'rw', blob(rng.choice([4, 40, 200]))))
-    if rng.random() < 0.8:
+    plan.append(('.data', 1, 3, 0, rng.choice([4, 8, 32]), 'rw', blob(0 if empty_rw else rng.choice([4, 40, 200]))))
+    if rng.random() < 0.8 or empty_rw:
         plan.append(('.bss', 8, 3, rng.choice([1, 8, 4096]), rng.choice([1, 8, 32]), 'rw', b''))
     if rng.random() < 0.5:
         plan.append(('.comment', 1, 0x30, 0, 1, None, b'GCC: (GNU) 12.2.0\0'))
     nseg_max = 12
+    lma_shift = rng.choice([0, 0x1000000, 0x1000000])         # ROM images load at another address than they run at
     ehsize = 64 if is64 else 52
     phsize = (56 if is64 else 32) * nseg_max
     # first pass: addresses (offset + base), contiguous with alignment; groups start on a page boundary
@@ -383,7 +400,8 @@ def gen_layout_file(rng):
             if first:
                 a = 0          # the first load segment maps the headers too
                 first = False
-            segs.append(elfgen.Seg(type=1, flags=fl, offset=a, vaddr=base + a, filesz=b - a, memsz=b - a + extra, align=0x1000))
+            segs.append(elfgen.Seg(type=1, flags=fl, offset=a, vaddr=base + a, paddr=base + a + rng.choice([0, lma_shift, 0x2000000]), filesz=b - a, memsz=b - a + extra,
+                                   align=0x1000))
     if 'note' in spans:
         a, b, _ = spans['note']
         segs.append(elfgen.Seg(type=4, flags=4, offset=a, vaddr=base + a, filesz=b - a, align=4))
